@@ -87,7 +87,11 @@ func (e Expression) MarshalYAML() (interface{}, error) {
 		case FloatExpression:
 			return float64(e), nil
 		case StringExpression:
-			return string(e), nil
+			// Strings that would be read back as something else (a point,
+			// a feature ID, a list) need the explicit form below.
+			if back, ok := ExpressionFromString(string(e)).AnyExpression.(StringExpression); ok && back == e {
+				return string(e), nil
+			}
 		case Expressions:
 			return e.String(), nil
 		}
